@@ -9,12 +9,26 @@ namespace LanceModel.C04
 def Extends (f u : Frag) : Prop :=
   u.id = f.id ∧ u.files = f.files ∧ u.rows = f.rows ∧ (∀ o ∈ f.del, o ∈ u.del) ∧ f.del.length < u.del.length ∧ u.WF
 
+/-- `u` is `f` with its columns rewritten in place (Update / RewriteColumns): one more data file, same row addresses, same
+    deletion vector and deletion file -/
+def ColsRewritten (f u : Frag) : Prop :=
+  u.id = f.id ∧ u.files ≠ f.files ∧ u.rows.length = f.rows.length ∧ u.del = f.del ∧ u.dfile = f.dfile
+
+theorem ColsRewritten.wf {f u : Frag} (h : ColsRewritten f u) (hf : f.WF) : u.WF := by
+  obtain ⟨_, _, h3, h4, h5⟩ := h
+  obtain ⟨w1, w2, w3, w4⟩ := hf
+  refine ⟨by rw [h4]; exact w1, ?_, ?_, ?_⟩
+  · intro o ho; rw [h4] at ho; rw [h3]; exact w2 o ho
+  · intro hd; rw [h5] at hd; rw [h4]; exact w3 hd
+  · intro d hd; rw [h5] at hd; rw [h4]; exact w4 d hd
+
 /-- what the history knows about a committed transaction (in the form it was committed, i.e. after its rebase) relative to
     the version it was committed on.  (A fragment that finish_delete_update promoted to "removed" keeps its stale entry in
     updated_fragments; build_manifest drops removed fragments first, so that entry is dead.) -/
 def Logged (t : Table) (o : Txn) : Prop :=
   ((o.kind = .delete ∨ o.kind = .update) →
-      (o.updated.map (·.id)).Nodup ∧ (∀ u ∈ o.updated, u.id ∉ o.removed → ∃ f, t.get u.id = some f ∧ Extends f u) ∧
+      (o.updated.map (·.id)).Nodup ∧
+        (∀ u ∈ o.updated, u.id ∉ o.removed → ∃ f, t.get u.id = some f ∧ (Extends f u ∨ ColsRewritten f u)) ∧
         o.newId = 0) ∧
   (o.kind = .rewrite → o.newId = 0 ∨ ∀ f ∈ t.frags, f.id < o.newId)
 
@@ -131,8 +145,10 @@ theorem build_wf {t : Table} {o : Txn} (hw : t.WF) (hl : Logged t o) : (build t 
       refine ⟨by rw [pickFirst_id]; exact (hf f hfm).1, ?_⟩
       rcases pick_mem_or o.updated f with h | h
       · rw [h]; exact (hf f hfm).2
-      · obtain ⟨_, _, he⟩ := hue _ h (by rw [pickFirst_id]; simpa using hfr)
-        exact he.2.2.2.2.2
+      · obtain ⟨f0, hf0, he⟩ := hue _ h (by rw [pickFirst_id]; simpa using hfr)
+        rcases he with he | he
+        · exact he.2.2.2.2.2
+        · exact he.wf (hf f0 (get_some hf0).1).2
   | update =>
     obtain ⟨hun, hue, hz⟩ := hl.1 (.inr hk)
     unfold build; simp only [hk]
@@ -158,8 +174,10 @@ theorem build_wf {t : Table} {o : Txn} (hw : t.WF) (hl : Logged t o) : (build t 
       · refine ⟨by rw [pickFirst_id]; exact Nat.lt_of_lt_of_le (hf f hfm).1 (newMax_ge t o), ?_⟩
         rcases pick_mem_or o.updated f with h | h
         · rw [h]; exact (hf f hfm).2
-        · obtain ⟨_, _, he⟩ := hue _ h (by rw [pickFirst_id]; simpa using hfr)
-          exact he.2.2.2.2.2
+        · obtain ⟨f0, hf0, he⟩ := hue _ h (by rw [pickFirst_id]; simpa using hfr)
+          rcases he with he | he
+          · exact he.2.2.2.2.2
+          · exact he.wf (hf f0 (get_some hf0).1).2
       · exact ⟨newMax_gt t o g hg, (newFrag_wf t o g hg).1⟩
   | rewrite =>
     have hz := hl.2 hk
@@ -321,7 +339,17 @@ theorem tracks_step {t0 t : Table} {rb rb' : Rebase} {o : Txn}
                 rw [hui, hc1] at hc'
                 injection hc' with hc'; subst hc'
                 refine ⟨u, get_build_updated hkk hun hc1 hr hu hui, ?_⟩
-                obtain ⟨e1, e2, e3, e4, e5, e6⟩ := hext
+                -- a column rewrite of this fragment would have been refused: its data files differ
+                have hsame : f.files = u.files := by
+                  apply Classical.byContradiction
+                  intro hne
+                  apply hfiles
+                  rw [List.any_eq_true]
+                  refine ⟨u, hu, ?_⟩
+                  rw [hui, hnr]
+                  simpa using hne
+                have hext' := hext.resolve_right (fun h => h.2.1 (hsame.symm.trans hc2.2.1.symm))
+                obtain ⟨e1, e2, e3, e4, e5, e6⟩ := hext'
                 obtain ⟨r1, r2, r3, r4, r5, _, _⟩ := hc2
                 have hne : u.dfile ≠ f.dfile :=
                   dfile_ne (get_wf hw0 hf) e6 (Nat.lt_of_le_of_lt r5 e5)
